@@ -160,6 +160,10 @@ class VC:
     def ev(self, e, st):
         if isinstance(e, _Val):
             return e.v
+        if isinstance(e, _Sub):
+            e2 = ast.Subscript(value=e.value, slice=e.slice, ctx=ast.Load())
+            e2.lineno, e2.col_offset = e.lineno, e.col_offset
+            return self.ev(e2, st)
         if isinstance(e, ast.Name):
             if e.id not in st.env:
                 raise VCError(f"unbound name {e.id}")
@@ -241,6 +245,14 @@ class VC:
                 return Opaque("gather", base, Slice("range", zmin(lo, L), zmin(hi, L), L))
             if isinstance(e.slice, ast.Tuple):
                 elts = e.slice.elts
+                if (len(elts) == 2 and all(isinstance(x, ast.Slice) for x in elts) and not (elts[0].lower is None and elts[0].upper is None)):
+                    # A[a:b, c:d] is A[a:b][:, c:d]
+                    rows = _Sub(e, elts[0])
+                    inner = self.ev(rows, st)
+                    L = self.length_of(inner, st, axis=1)
+                    lo = self.ev(elts[1].lower, st) if elts[1].lower is not None else z3.IntVal(0)
+                    hi = self.ev(elts[1].upper, st) if elts[1].upper is not None else L
+                    return Opaque("colgather", inner, Slice("range", zmin(lo, L), zmin(hi, L), L))
                 if len(elts) == 2 and isinstance(elts[0], ast.Slice) and elts[0].lower is None and elts[0].upper is None:
                     if isinstance(elts[1], ast.Slice):
                         L = self.length_of(base, st, axis=1)
